@@ -22,3 +22,49 @@ pub fn era(day: i64) -> &'static str {
         "AD"
     }
 }
+
+use crate::core::{Ctx, Rec, Workload};
+
+pub fn leak(s: String) -> &'static str {
+    Box::leak(s.into_boxed_str())
+}
+
+/// The day-number workloads shared by the per-day monitors: the whole i32 domain when `full`,
+/// otherwise the structurally interesting windows plus a strided pass over the whole range.
+/// `judge(rec, day, hashed)` is called once per visited day.
+pub fn day_sweeps<'a>(
+    ctx: &Ctx,
+    prefix: &'static str,
+    full: bool,
+    quick_stride: u64,
+    rel_stride: u64,
+    judge: impl Fn(&mut Rec, i64, bool) + Sync + Clone + 'a,
+) -> Vec<Workload<'a>> {
+    let cyc = 146_097i64;
+    let mk = |name: String, lo: i64, hi: i64, stride: u64, hashed: bool| -> Workload<'a> {
+        let count = ((hi - lo) as u64) / stride + 1;
+        let j = judge.clone();
+        Workload::chunks(leak(name), count, 1 << 15, move |rec, r| {
+            for k in r {
+                j(rec, lo + (k * stride) as i64, hashed);
+            }
+        })
+    };
+    if full {
+        vec![mk(format!("{}_all_days", prefix), cal::MIN_DAY, cal::MAX_DAY, 1, false)]
+    } else {
+        let stride = if ctx.quick() { quick_stride } else { rel_stride };
+        vec![
+            mk(format!("{}_around_era_boundary", prefix), -3 * cyc, 3 * cyc, 1, true),
+            mk(format!("{}_1600_2400", prefix), cal::days_from_civil(1600, 1, 1), cal::days_from_civil(2400, 12, 31), 1, true),
+            mk(format!("{}_low_range_end", prefix), cal::MIN_DAY, cal::MIN_DAY + 2 * cyc, 1, true),
+            mk(format!("{}_high_range_end", prefix), cal::MAX_DAY - 2 * cyc, cal::MAX_DAY, 1, true),
+            mk(format!("{}_strided_whole_range", prefix), cal::MIN_DAY, cal::MAX_DAY, stride, true),
+        ]
+    }
+}
+
+#[inline]
+pub fn ts_of_day(n: i64) -> i64 {
+    (n - cal::DAYS_TO_1970) * 86_400
+}
